@@ -15,6 +15,9 @@ from .mutations import MUTATIONS
 
 
 def main(argv):
+    if argv and argv[0] == "ops":
+        from . import optest
+        return optest.main()
     want = set(argv)
     bad = 0
     for name, prop, rel, old, new in MUTATIONS:
